@@ -37,6 +37,9 @@ LEVEL_NOTE = (
 FLOOR_NONTRIVIAL = 20
 
 TOL_FIXED = 1e-6
+import os
+
+COMPUTE_TIMEOUT_S = int(os.environ.get("VERIF_C18_TIMEOUT", "300"))  # one compute() takes 0.1-3 s; a runaway (e.g. a root search drifting into a Landau pole) is a failure
 COUPLING_REFS = {3: (1.1, 0.40), 4: (3.0, 0.25), 5: (91.2, 0.118), 6: (500.0, 0.095)}
 OPTIONS = {
     "c": {"at": (1.27, 1.27), "up1": (1.10, 2.0), "up2": (0.88, 10.0), "dn1": (1.30, 1.2), "dn2": (1.29, 1.25)},
@@ -66,12 +69,22 @@ def _call_compute(inputs, nf_ref, order, method, ratios, xif2, shim):
     mu_ref, alphas = COUPLING_REFS[nf_ref]
     ci = CouplingsInfo.from_dict(dict(alphas=alphas, alphaem=0.0075, ref=(mu_ref, nf_ref), em_running=False))
     masses = HeavyQuarkMasses([QuarkMassRef(list(inputs[q])) for q in "cbt"])
+    import signal
+
     saved = mm.optimize
     if shim:
         mm.optimize = _shimmed_fsolve()
+
+    def _alarm(_sig, _frm):
+        raise TimeoutError(f"msbar_masses.compute still running after {COMPUTE_TIMEOUT_S} s")
+
+    old_handler = signal.signal(signal.SIGALRM, _alarm)
+    signal.alarm(COMPUTE_TIMEOUT_S)
     try:
         return mm.compute(masses, ci, (order, 0), CouplingEvolutionMethod(method), list(ratios), xif2)
     finally:
+        signal.alarm(0)
+        signal.signal(signal.SIGALRM, old_handler)
         mm.optimize = saved
 
 
